@@ -158,8 +158,10 @@ def make_recording_store() -> Any:
     return RecordingStore()
 
 
-def run_first_recording(make_workflow: Any, idle_timeout: Any = 1000, horizon: int = 12) -> Dict[str, Any]:
-    """run_first over a recording store: additionally returns obs["writes"], the ordered primitive store writes."""
+def run_first_recording(make_workflow: Any, idle_timeout: Any = 1000, horizon: int = 12, sends: Optional[List[Any]] = None,
+                        make_event: Any = None) -> Dict[str, Any]:
+    """run_first over a recording store: additionally returns obs["writes"], the ordered primitive store writes.
+    ``sends`` = [(at, payload)]: external events sent through the real service at virtual instants."""
     loop = MiniLoop()
     obs: Dict[str, Any] = {"errors": []}
 
@@ -170,6 +172,16 @@ def run_first_recording(make_workflow: Any, idle_timeout: Any = 1000, horizon: i
         st.add_workflow("w", wf)
         await st.service.start()
         await st.service.start_workflow(wf, "h1", None)
+
+        async def sender(at: Any, payload: Any) -> None:
+            await asyncio.sleep(at)
+            try:
+                await st.service.send_event("h1", make_event(payload))
+            except Exception as e:  # noqa: BLE001
+                obs["errors"].append(f"{type(e).__name__}: {e}")
+
+        for t in [asyncio.ensure_future(sender(at, p)) for (at, p) in (sends or [])]:
+            await t
         await _settle(st, horizon, obs, loop, 0)
         obs["writes"] = list(store.writes)
         await st.service.stop()
